@@ -30,8 +30,10 @@ def pre_amount(pre, n_jobs):
 
 
 def gen_call(rng, profile, call_idx):
-    n_jobs = rng.choice([2, 2, 3, 3, 4])
-    pre = rng.choice([1, 2, 3, "all", "n_jobs", "2*n_jobs", "1.5*n_jobs", "2*n_jobs", 5])
+    n_jobs = rng.choice([2, 2, 3, 3, 4, 5])
+    # expressions are evaluated to a float and TRUNCATED (int()): fractions above and below one half, exact halves
+    pre = rng.choice([1, 2, 3, "all", "n_jobs", "2*n_jobs", "1.5*n_jobs", "2*n_jobs", 5, "2.6*n_jobs", "1.5*n_jobs",
+                      "n_jobs+n_jobs/2", "7*n_jobs/4", "3*n_jobs//2"])
     mode = rng.choice(["ordered", "ordered", "unordered"]) if profile != "c16" else rng.choice(["ordered", "unordered"])
     amount = pre_amount(pre, n_jobs)
     base = (amount or 4)
@@ -706,6 +708,13 @@ def judge_real(c, r):
             elif sorted(execd) != exp:
                 bad.append(("C01", "real backend %s: executed %s" % (c["backend"], sorted(execd))))
         else:
+            if c.get("fastfail") and k == 0 and tf:
+                pulled = r.get("pulls", {}).get("1", 0)
+                bound = min(tf) + 1 + (pre_amount(c["pre_dispatch"], c["n_jobs"]) or c["N"]) + 3 * c["n_jobs"]
+                if pulled > bound:
+                    bad.append(("C09", "real backend %s: task %d failed at once (%s) while the other tasks take 50 ms each, yet %d of %d "
+                                       "input items were taken (pre_dispatch=%s, n_jobs=%d, batch_size=1: at most %d expected)" % (
+                                           c["backend"], min(tf), c.get("exc"), pulled, c["N"], c["pre_dispatch"], c["n_jobs"], bound)))
             if c.get("slow") and k == 0 and (call.get("latency") or 0) > 5.0:
                 bad.append(("C04", "real backend %s%s: the call raised only %.1f s after its task failed: it waited for the other "
                                    "dispatched tasks (%.0f s each) instead of stopping them" % (
@@ -715,6 +724,8 @@ def judge_real(c, r):
                 # the value cannot travel back from a worker process: any error will do there, none in threads
                 if c["backend"] in ("threading", "sequential"):
                     bad.append(("C04", "real backend %s: a task returned an unpicklable value, call raised %s%s" % (c["backend"], name, args)))
+            elif tf and jf is None and c.get("exc") == "UnpicklableArg":
+                pass        # (process backends only) the task could not be handed over: any error will do
             elif tf and jf is None and c.get("exc") == "UnpicklableExc" and (c["backend"] not in ("threading", "sequential") or name != "TaskFail"):
                 if c["backend"] in ("threading", "sequential"):
                     bad.append(("C04", "real backend %s: expected TaskFail, got %s%s" % (c["backend"], name, args)))
@@ -750,6 +761,14 @@ def fixed_real_cases():
     for backend in ("multiprocessing", "loky", "threading"):
         for exc in ("UnpicklableExc", "UnpicklableRet"):
             out.append(dict(base, backend=backend, n_jobs=2, exc=exc, with_block=(exc == "UnpicklableRet")))
+    # a task fails at once while the others take their time: the input must not be consumed much further (C09), whatever
+    # the way the failure reaches the caller (raised in the worker, reported by the pool's error callback, refused at
+    # hand-over)
+    for backend, excs in (("multiprocessing", ("TaskFail", "UnpicklableArg", "UnpicklableRet", "UnpicklableExc")),
+                          ("loky", ("TaskFail", "UnpicklableExc")), ("threading", ("TaskFail",))):
+        for exc in excs:
+            out.append(dict(base, backend=backend, n_jobs=2, N=60, tfail=[3], exc=exc, fastfail=True, batch_size=1,
+                            pre_dispatch="2*n_jobs", reuse=1))
     # sized inputs (the number of tasks is known up front), the empty one included, with progress messages
     ncpu = os.cpu_count() or 1
     for backend, nj in (("sequential", 1), ("threading", 1), ("threading", 2), ("loky", 2), ("threading", -ncpu - 1), ("multiprocessing", -ncpu - 3)):
@@ -764,8 +783,9 @@ def fixed_real_cases():
 
 
 def real_sampling(ctx, quick, prop, fail_rate):
-    cases = real_cases(ctx.rng, 24 if quick else 200, fail_rate)
-    cases = [c for c in fixed_real_cases() if fail_rate >= 0.5 or c.get("abandon") or c.get("sized") or prop == "C01"] + cases
+    cases = real_cases(ctx.rng, (24 if quick else 200) if prop != "C09" else (0 if quick else 40), fail_rate)
+    cases = [c for c in fixed_real_cases() if (fail_rate >= 0.5 or c.get("abandon") or c.get("sized") or prop == "C01")
+             and (prop != "C09" or c.get("fastfail"))] + cases
     chunks = [cases[i::8] for i in range(8)]
     from concurrent.futures import ThreadPoolExecutor
 
@@ -1075,6 +1095,7 @@ def extra_c04(ctx, quick):
 
 def extra_c09(ctx, quick):
     cov = lock_probe(ctx, quick, "C09")
+    cov.update(real_sampling(ctx, quick, "C09", 0.7))
     cov.update(seq_path(ctx, quick, "C09"))
     cov.update(sync_backend(ctx, quick, "C09", "c04", 0.5))
     return cov
